@@ -81,3 +81,10 @@ def buffer_replay(isput):
 def resource_replay(g, ob, vals, res):
     src = os.path.join(VERIF, 'replay', 'resource_scn.c')
     return scenario_sweep(src, [[k] for k in (1, 2, 3, 4, 5)])
+
+
+def random_replay(g, ob, vals, res):
+    src = os.path.join(VERIF, 'replay', 'random_replay.c')
+    seed = _int(vals.get('seed', ('42', None))[0])
+    cands = [[seed, 3, 5], [seed, 0, 0], [seed, 7, 64], [1, 3, 5], [0, 1, 1], [2 ** 64 - 1, 2, 63]]
+    return scenario_sweep(src, cands)
